@@ -349,6 +349,9 @@ func main() {
 	if par > 16 {
 		par = 16
 	}
+	if v, err := strconv.Atoi(os.Getenv("VERIF_PAR")); err == nil && v > 0 && v < par {
+		par = v // background runs that should leave cores free
+	}
 	if prop != "C06" { // C06 measures allocation itself and its workers are short-lived
 		n := par
 		if len(tasks) < n {
